@@ -112,10 +112,13 @@ func (h *H) checkInv(s *Snap, op string) {
 					kind = "short-hash-lookup-returns-wrong-tx"
 				}
 				if kind != "" {
+					st := site
 					if h.collide[shs[i]] {
+						// two transactions of this history share the short hash: one finding, whatever the event
 						kind += "-with-colliding-short-hash"
+						st = "SHashTxCache"
 					}
-					h.pred(site, kind, fmt.Sprintf("short=%s %s", shs[i], s.Text))
+					h.pred(st, kind, fmt.Sprintf("short=%s %s", shs[i], s.Text))
 				}
 			}
 		}
